@@ -41,9 +41,11 @@ def integral_data(ir: FormIR) -> IntegralData:
 
         ids += [_ids[i] for i in id_sort]
         names += [ir.integral_names[itg_type][i] for i in id_sort]
-        domains += [ir.integral_domains[itg_type][i] for i in id_sort]
+        type_domains = [ir.integral_domains[itg_type][i] for i in id_sort]
+        domains += type_domains
 
-        offsets.append(offsets[-1] + sum(len(d) for d in domains[offsets[-1] :]))
+        # One kernel per (integral, domain): count the kernels of this type only
+        offsets.append(offsets[-1] + sum(len(d) for d in type_domains))
 
     return IntegralData(names, ids, offsets, domains)
 
